@@ -229,9 +229,9 @@ func (ff *fnFacts) Of(ins ssa.Instruction) []condFact { return ff.At(ins.Block()
 
 type xcall struct {
 	Call  *ssa.Call
-	Fn    *ssa.Function   // function that contains the call
-	Facts []condFact      // branch facts at the call, including those inherited along the chain of call sites
-	Chain []*ssa.Call     // call instructions from the root function down to (and including) Call
+	Fn    *ssa.Function // function that contains the call
+	Facts []condFact    // branch facts at the call, including those inherited along the chain of call sites
+	Chain []*ssa.Call   // call instructions from the root function down to (and including) Call
 	bind  map[ssa.Value]ssa.Value
 }
 
